@@ -3,7 +3,7 @@ C10 — Results do not depend on how the index was built.  Property theorems.
 Model: ZoektModel/C10/Model.lean (Builder.Add / flush / Finish, sortDocuments) and ZoektModel/C09/Postings.lean
 (postingsBuilder with reset).  Statement: ZoektModel/C10/Spec.lean.
 -/
-import ZoektModel.C10.Reset
+import ZoektModel.C10.Keys
 namespace ZoektModel.C10
 open ZoektModel ZoektModel.C09
 
@@ -158,6 +158,43 @@ theorem reset_fresh_write_partial (a b : PB) (hsim : Sim a b) (hperm : a.collect
     · exact ((List.mergeSort_perm _ _).trans hperm).trans (List.mergeSort_perm _ _).symm
   unfold PB.write
   simp only [hsort, hsim.ro, hsim.er]
+
+theorem Reach.kinv {s : PB} (h : Reach s) : KInv s := by
+  induction h with
+  | fresh => exact KInv.fresh
+  | add _ hok ih => exact ih.add _ _ _ _ hok
+  | reset _ ih => exact ih.reset
+
+/-- **reset_fresh_write.** For every builder a `Builder` can take out of its pool and every document list: after `reset`
+    the four posting sections `writePostings` emits (ngram text, posting lists, rune offsets, end runes) are identical to
+    those of a fresh builder fed the same documents, and the same documents are accepted. Buffer reuse is unobservable. -/
+theorem reset_fresh_write (old : PB) (hold : Reach old) (docs : List (Bytes × List (Nat × Nat))) :
+    (addDocs old.reset docs).map (·.write) = (addDocs PB.fresh docs).map (·.write) := by
+  have h := reset_fresh old hold docs
+  have keysK : ∀ (ds : List (Bytes × List (Nat × Nat))) (s a : PB), KInv s → addDocs s ds = some a → KInv a := by
+    intro ds
+    induction ds with
+    | nil => intro s a hi h; simp [addDocs] at h; subst h; exact hi
+    | cons d r ih =>
+      intro s a hi h
+      obtain ⟨c, sc⟩ := d
+      unfold addDocs at h
+      split at h
+      · rename_i pb' rs' hok
+        exact ih pb' a (hi.add _ _ _ _ hok) h
+      · cases h
+  revert h
+  cases ha : addDocs old.reset docs <;> cases hb : addDocs PB.fresh docs <;> simp
+  rename_i a b
+  intro hsim hperm
+  exact reset_fresh_write_partial a b hsim hperm (keysK docs _ b KInv.fresh hb).collect_keys_nodup
+
+/-- the executable form used by the driver -/
+theorem C10_reuse_checkP (old : PB) (hold : Reach old) (docs : List (Bytes × List (Nat × Nat))) :
+    reuseInvisible old docs = true := by
+  unfold reuseInvisible
+  rw [reset_fresh_write old hold docs]
+  simp
 
 /-! ### non-vacuity -/
 
